@@ -43,6 +43,18 @@ POSITIONAL_OPS = {"add_edge", "add_simplex", "add_weighted_edges_from", "add_wei
 MTYPES = ["list", "list", "list", "tuple", "set", "frozenset"]
 
 
+def _same(a, b):
+    # (a numpy integer compared with a tuple label broadcasts to an array)
+    try:
+        return bool(a == b)
+    except Exception:
+        return False
+
+
+BULK_OPS = {"add_edges_from", "add_simplices_from", "alias_add_edges_from", "add_weighted_edges_from",
+            "add_weighted_simplices_from", "alias_add_weighted_edges_from"}
+
+
 class Gen:
     def __init__(self, seed, cfg):
         self.r = random.Random(seed)
@@ -115,7 +127,7 @@ class Gen:
             elif tuples and self.profile == "mixed" and self.r.random() < 0.15:
                 # (single adds only) two labels of one type that cannot be ordered against each other
                 n = self.r.choice([(0, 1), (0, "x")])
-            if n not in out:
+            if not any(_same(n, x) for x in out):
                 out.append(n)
         return out
 
@@ -192,6 +204,19 @@ class Gen:
             fault = {"kind": "oneshot"}
         if op in POSITIONAL_OPS and self.r.random() < 0.3:
             args["positional"] = True
+        if op in BULK_OPS and isinstance(args.get("items"), list):
+            # tuple node labels never travel through the member lists of bulk calls (the formats
+            # read a leading tuple as a members list): whatever route put one there, take it out
+            def clean(mem):
+                if isinstance(mem, list) and any(isinstance(x, tuple) for x in mem):
+                    return [x for x in mem if not isinstance(x, tuple)] or [0]
+                return mem
+            for it in args["items"]:
+                if isinstance(it, list) and it:
+                    if isinstance(it[0], list) and len(it[0]) == 2 and all(isinstance(p, list) for p in it[0]):
+                        it[0] = [clean(it[0][0]), clean(it[0][1])]  # directed: [tail, head]
+                    else:
+                        it[0] = clean(it[0])
         r = {"uid": self.next_uid(), "actor": actor, "op": op,
              "args": {k: enc(v) for k, v in args.items()}}
         if fault:
@@ -573,8 +598,11 @@ class Gen:
     # ---------------------------------------------------------- SimplicialComplex
     def _simplex(self, m, big=False, allow_empty=False):
         hi = 6 if big else 4
-        if self.profile == "large" and self.r.random() < 0.3:
-            hi = 10  # a 10-node simplex has 1012 faces of two or more nodes
+        if self.profile == "large" and self.r.random() < 0.3 and len(m.edges) < 1500:
+            # a 10-node simplex has 1012 faces of two or more nodes.  (Only while the complex is
+            # below 1500 simplices: the reference model and the closure oracle are quadratic and
+            # worse in the number of simplices, and a long history must stay within the step budget)
+            hi = 10
         lo = 0 if (allow_empty and self.r.random() < 0.04) else 1
         if hi == 10 and self.r.random() < 0.5:
             lo = 9  # (3**9 subface entries are replayed when such a complex is copied)
